@@ -151,6 +151,27 @@ func GlobalWrites(p *Program) []GlobalWrite {
 
 // IsReadonly reports whether the function never writes through its receiver or pointer parameters
 // (syntactic, transitive over in-module callees; recursion is treated optimistically and re-checked by the callee itself).
+// IsRecvReadonly: like IsReadonly but only about the receiver (pointer parameters may be written).
+func (p *Program) IsRecvReadonly(fi *FuncInfo) bool {
+	if p.rroMemo == nil {
+		p.rroMemo = map[*FuncInfo]int{}
+	}
+	switch p.rroMemo[fi] {
+	case 1, 3:
+		return true
+	case 2:
+		return false
+	}
+	p.rroMemo[fi] = 3
+	ok := p.computeReadonlyX(fi, true)
+	if ok {
+		p.rroMemo[fi] = 1
+	} else {
+		p.rroMemo[fi] = 2
+	}
+	return ok
+}
+
 func (p *Program) IsReadonly(fi *FuncInfo) bool {
 	if p.roMemo == nil {
 		p.roMemo = map[*FuncInfo]int{}
@@ -173,7 +194,9 @@ func (p *Program) IsReadonly(fi *FuncInfo) bool {
 	return ok
 }
 
-func (p *Program) computeReadonly(fi *FuncInfo) bool {
+func (p *Program) computeReadonly(fi *FuncInfo) bool { return p.computeReadonlyX(fi, false) }
+
+func (p *Program) computeReadonlyX(fi *FuncInfo, onlyRecv bool) bool {
 	if fi.Decl.Body == nil {
 		return false
 	}
@@ -185,7 +208,7 @@ func (p *Program) computeReadonly(fi *FuncInfo) bool {
 			ptrs[rv] = true
 		}
 	}
-	for i := 0; i < sig.Params().Len(); i++ {
+	for i := 0; i < sig.Params().Len() && !onlyRecv; i++ {
 		pv := sig.Params().At(i)
 		switch pv.Type().Underlying().(type) {
 		case *types.Pointer, *types.Map:
@@ -289,9 +312,38 @@ func (p *Program) computeReadonly(fi *FuncInfo) bool {
 		}
 		cfi := p.ByObj[callee]
 		if cfi == nil {
-			// library callee receiving our pointer: assume it may write
+			// library callee receiving our pointer: assume it may write — unless everything passed is an opaque library
+			// struct (zip.File, html.Node, ...), which is not part of the modelled state (assumption A9)
+			allOpaque := true
+			check := func(e ast.Expr) {
+				if o := rootOf(e); o != nil && ptrs[o] {
+					if t := info.TypeOf(e); t == nil || !isLibraryStruct(derefType(t)) {
+						allOpaque = false
+					}
+				}
+			}
+			if recvExpr != nil {
+				check(recvExpr)
+			}
+			for _, a := range call.Args {
+				check(a)
+			}
+			if allOpaque {
+				return true
+			}
 			ok = false
 			return false
+		}
+		if onlyRecv {
+			// the receiver is passed on: as the callee's receiver (its receiver-readonly-ness matters) or as an argument (conservative)
+			if recvExpr != nil && rootOf(recvExpr) != nil && ptrs[rootOf(recvExpr)] {
+				if !p.IsRecvReadonly(cfi) {
+					ok = false
+				}
+			} else if !p.IsReadonly(cfi) {
+				ok = false
+			}
+			return ok
 		}
 		if !p.IsReadonly(cfi) {
 			ok = false
